@@ -304,10 +304,100 @@ def obligations(tier):
     return obs
 
 
+# ------------------------------------------------------------------ cisco type 7 (a keyed XOR; published in many "type 7 decoders")
+CISCO7_KEY = b"dsfd;kfoA,.iyewrkldJKDHSUBsgvca69834ncxv9873254k;fg87"
+
+
+def ob_cisco_type7(salt, n):
+    """hash(p) = two-digit salt + hex of p[i] XOR key[(salt + i) mod 53] for every password of n symbolic bytes; decode() inverts it"""
+    from passlib.hash import cisco_type7 as H
+    from vlib import hashenv
+    if len(CISCO7_KEY) != 53:
+        return harness_error("reference key has the wrong length")
+    p = SBytes.var("p", n)
+
+    def run():
+        h = H.using(salt=salt).hash(p)
+        return h, H.decode(h, None)
+    try:
+        with patched(*hashenv.env_triples(H)):
+            paths = explore(run, max_paths=64)
+    except Unsupported as e:
+        return inconclusive("Unsupported: %s" % e)
+    hexu = b"0123456789ABCDEF"
+    for pth in paths:
+        if pth.exc is not None:
+            if isinstance(pth.exc, Unsupported):
+                return inconclusive("Unsupported: %s" % pth.exc)
+            return _c7viol(salt, n, None, p, "raises %r" % (pth.exc,))
+        h, back = pth.result
+        hs = SStr.lift(h)
+        if len(hs) != 2 + 2 * n:
+            return _c7viol(salt, n, None, p, "hash has %d characters" % len(hs))
+        want = list("%02d" % salt)
+        diff = []
+        for i in range(n):
+            x = _t8(p.b[i]) ^ z3.BitVecVal(CISCO7_KEY[(salt + i) % 53], 8)
+            for nib in (z3.Extract(7, 4, x), z3.Extract(3, 0, x)):
+                ch = z3.BitVecVal(0, 21)
+                for v in range(16):
+                    ch = z3.If(nib == v, z3.BitVecVal(hexu[v], 21), ch)
+                want.append(ch)
+        for a, b in zip(hs.c, want):
+            a = z3.BitVecVal(ord(a), 21) if isinstance(a, str) else a
+            b = z3.BitVecVal(ord(b), 21) if isinstance(b, str) else b
+            diff.append(a != b)
+        for d in diff:
+            d = z3.simplify(d)
+            if z3.is_false(d):
+                continue
+            r, m = check(pth.cond(), d)          # one small query per output character
+            if r == "sat":
+                return _c7viol(salt, n, m, p, "hash differs from salt + hex(p XOR key[(salt+i) mod 53])")
+            if r != "unsat":
+                return inconclusive("solver %s" % r)
+        bb = SBytes.lift(back)
+        if len(bb) != n:
+            return _c7viol(salt, n, None, p, "decode() returns %d bytes" % len(bb))
+        r, m = check(pth.cond(), z3.Or(*[_t8(x) != _t8(y) for x, y in zip(bb.b, p.b)]))
+        if r == "sat":
+            return _c7viol(salt, n, m, p, "decode(hash(p)) differs from p")
+    return ok("cisco_type7, salt %d, %d symbolic bytes: the keyed XOR with the published key, decode inverts it (%d paths)" % (salt, n, len(paths)),
+              paths=len(paths))
+
+
+def _c7viol(salt, n, m, p, what):
+    pw = [m.eval(_t8(b), True).as_long() for b in p.b] if m is not None else [65] * n
+    return violation("cisco_type7(salt=%d, %r): %s" % (salt, bytes(pw), what), "cisco_type7",
+                     {"module": "harness.c02", "func": "replay_cisco_type7", "args": {"salt": salt, "pw": pw}})
+
+
+def replay_cisco_type7(salt, pw):
+    from passlib.hash import cisco_type7 as H
+    pw = bytes(pw)
+    want = "%02d" % salt + "".join("%02X" % (c ^ CISCO7_KEY[(salt + i) % 53]) for i, c in enumerate(pw))
+    try:
+        h = H.using(salt=salt).hash(pw)
+        back = H.decode(h, None)
+    except Exception as e:
+        return "cisco_type7 salt %d %r raises %r" % (salt, pw, e)
+    if h != want:
+        return "cisco_type7.using(salt=%d).hash(%r) = %s, the published algorithm gives %s" % (salt, pw, h, want)
+    if back != pw:
+        return "cisco_type7.decode(%s) = %r" % (h, back)
+    # a real device string
+    if H.decode("0822455D0A16", "ascii") != "cisco":
+        return "the device string 0822455D0A16 does not decode to 'cisco'"
+    return False
+
+
 def run(tier, seed, t0, only=None):
     import sys
     sys.path.insert(0, runner.REPO)
     obs = obligations(tier)
+    for salt in ((0, 15, 40, 52) if tier == "quick" else range(0, 53, 3)):
+        for n in ((1, 14, 25) if tier == "quick" else (1, 7, 14, 25, 54, 64)):
+            obs.append(Ob("cisco_type7[salt=%d,len=%d]" % (salt, n), ob_cisco_type7, {"salt": salt, "n": n}, timeout=600))
     if only:
         obs = [o for o in obs if only in o.name]
     results = runner.run_obligations(obs)
